@@ -278,9 +278,20 @@ def detach_paired(ctx, o):
             continue
         ds = [d for d in fl.defs_of(fo.iter.id) if d.kind == 'assign']
         hops = 0
-        while len(ds) == 1 and isinstance(ds[0].value, ast.Name) and hops < 5:
-            # `old = released` (a spliced helper result / a renamed local): follow the alias to its own single definition
-            nxt = fl.defs_of(ds[0].value.id)
+        pre_conds, filter_nodes = [], []
+        while len(ds) == 1 and hops < 5:
+            # `old = released` (a spliced helper result / a renamed local): follow the alias to its own single definition;
+            # `dropped = [v for v in old if <cond>]`: a filtered view of the snapshot, the filter is part of the detach condition
+            val = ds[0].value
+            if isinstance(val, ast.ListComp) and len(val.generators) == 1 and isinstance(val.generators[0].target, ast.Name) and \
+                    isinstance(val.elt, ast.Name) and val.elt.id == val.generators[0].target.id and isinstance(val.generators[0].iter, ast.Name) \
+                    and val.generators[0].ifs:
+                pre_conds += [(cnd, val.elt.id) for cnd in val.generators[0].ifs]
+                filter_nodes.append(ds[0].node)
+                val = val.generators[0].iter
+            if not isinstance(val, ast.Name):
+                break
+            nxt = fl.defs_of(val.id)
             if len(nxt) != 1 or nxt[0].kind != 'assign' or not cfg.dominates(nxt[0].node, ds[0].node):
                 break
             ds, hops = nxt, hops + 1
@@ -292,6 +303,13 @@ def detach_paired(ctx, o):
                 o.refute(f, ds[0].stmt, ds[0].stmt, "the old children are saved after the list was already cleared")
                 continue
             copy_ok = r == 'ok'
+        if not copy_ok and len(ds) == 1 and match(f"{s}._Task__children", ds[0].value):
+            # the old list OBJECT is kept: a valid snapshot only when the task's list is re-bound afterwards instead of cleared in
+            # place (the re-binding itself is refuted by shared_child_list)
+            if clears:
+                o.refute(f, fo, fo.iter, f"`{fo.iter.id}` is the child list itself, not a copy: the clear() empties it too, nothing is detached")
+                continue
+            copy_ok = True
         if not copy_ok:
             if len(ds) == 1 and _mentions_children(ds[0].value, s) and not any(isinstance(n, ast.Call) and n is not ds[0].value
                                                                                  for n in ast.walk(ds[0].value)) \
@@ -311,17 +329,69 @@ def detach_paired(ctx, o):
         if rp and not all(cfg.dominates(cfg.node_of(_for_of(f, st)), cfg.node_of(fo)) and not cfg.can_reach(cfg.node_of(fo), cfg.node_of(st)) for st in rp):
             o.refute(f, fo, fo, "old children are detached before the new list is attached: a task that is kept would lose its owner")
             continue
+        if rp and filter_nodes and not all(cfg.dominates(cfg.node_of(_for_of(f, st)), fn) and not cfg.can_reach(fn, cfg.node_of(st))
+                                           for st in rp for fn in filter_nodes):
+            o.refute(f, fo, fo.iter, "the old children to detach are selected before the new list is attached: a task that is kept would lose its owner")
+            continue
         v = fo.target.id if isinstance(fo.target, ast.Name) else None
         conds = [(t, q) for t, q in facts.node_conditions(prog, f, c, ctx.typer, expand=False)
                  if cfg.node_containing(t) is not None and cfg.dominates(cfg.node_of(fo), cfg.node_containing(t))]
+        if v is not None:
+            from sa.flow import subst as _subst
+            for cnd, var in pre_conds:
+                conds += facts.split_conj(_subst(cnd, {var: ast.Name(id=v, ctx=ast.Load())}), True)
         kept = [(t, q) for t, q in conds if facts.cond_is(t, q, f"{v}._Task__parent is None", True) is not None or
                 facts.cond_is(t, q, f"{v} in $val", False) is not None or facts.cond_is(t, q, f"{v}._Task__parent is {s}", False) is not None]
         if isinstance(c.func.value, ast.Name) and c.func.value.id == v and len(kept) == len(conds) and kept:
+            if not _released_first(ctx, o, f, s, fo, rp, kept, v):
+                continue
             o.site(f, c, f"for {v} in old: if not re-attached: {v}._detach()")
         elif not conds:
             o.refute(f, c, c, "every old child is detached, also those that were re-attached by the assignment")
         else:
             o.refute(f, c, c, "old children are detached under " + ', '.join(facts.cond_texts(conds)) + "; expected exactly `not re-attached`")
+
+
+def _released_first(ctx, o, f, s, fo, rp, kept, v) -> bool:
+    """`v.__parent is None` means 'not re-attached' only if the old children were un-parented first, and a dropped task leaves
+    X.tasks only if the list was emptied before the new children are linked.  Looks into f and its private helpers."""
+    prog = ctx.prog
+    funcs = _closure(ctx, f)
+    by_parent = any(facts.cond_is(t, q, f"{v}._Task__parent is None", True) is not None for t, q in kept)
+    if by_parent:
+        unparent = []
+        for g in funcs:
+            for st, tgt, val in facts.attr_stores(g, '_Task__parent'):
+                if isinstance(val, ast.Constant) and val.value is None and isinstance(tgt.value, ast.Name) and \
+                        not (g.self_name and tgt.value.id == g.self_name):
+                    unparent.append((g, st))
+        if not unparent:
+            o.refute(f, fo, 'old children keep their parent', "the old children are never un-parented before the new ones are linked, so "
+                     f"`{v}.__parent is None` never holds: tasks left out of the assignment are not detached and keep reporting the WBS")
+            return False
+    emptied = []
+    for g in funcs:
+        gs = g.self_name or s
+        for n in walk_no_nested(g.node):
+            if isinstance(n, ast.Call) and match(f"{gs}._Task__children.clear()", n):
+                emptied.append(n)
+            elif isinstance(n, ast.Call) and (match(f"{gs}._Task__children.remove($x)", n) or match(f"{gs}._Task__children.pop($*x)", n)):
+                emptied.append(n)      # the dropped tasks are taken out one by one
+            elif isinstance(n, ast.Delete) and any(isinstance(t, ast.Subscript) and match(f"{gs}._Task__children", t.value) for t in n.targets):
+                emptied.append(n)
+            elif isinstance(n, ast.Assign) and any(isinstance(t, ast.Subscript) and match(f"{gs}._Task__children", t.value) and
+                                                   isinstance(t.slice, ast.Slice) for t in n.targets):
+                emptied.append(n)
+            elif isinstance(n, ast.Assign) and any(match(f"{gs}._Task__children", t) for tt in n.targets
+                                                   for t in (tt.elts if isinstance(tt, (ast.Tuple, ast.List)) else [tt])) \
+                    and g.qual != 'task.Task.__set_children':
+                emptied.append(n)      # a rebind (refuted by shared_child_list) still empties it
+    if not emptied:
+        o.refute(f, f.node, 'child list not emptied', "the children setter never takes anything out of the old child list (no clear / remove / "
+                                                      "slice assignment): tasks left out of the assignment stay in the list (and in X.tasks) "
+                                                      "although they are detached and report no owner")
+        return False
+    return True
 
 
 def _for_of(f, node):
